@@ -391,7 +391,7 @@ fn main() {
         let init = if w["detail"]["initial"].as_str() == Some("Private") { Vis::Private } else { Vis::Public };
         ctx.finish_replay(explore::replay::<Sys>("C11", move || Sys::new(init), &w));
     }
-    let (depth, devs) = if thorough { (7, 3) } else { (5, 2) };
+    let (depth, devs) = if thorough { (10, 4) } else { (7, 3) };
     // Two start states: the repository is public / private when the node starts.
     let mut res = explore::explore("C11", || Sys::new(Vis::Public), Bounds::new(depth, devs).wall_secs(if thorough { 900 } else { 25 }));
     for (_, (ws, _)) in res.violations.by_fp.iter_mut() {
